@@ -346,6 +346,53 @@ def _special_case(args):
             shutil.move(str(ref), str(d / "b" / "ref.rtdc"))
             out.extend(check_referrer(d / "b" / "ref.rtdc", ev, cmap, case,
                                       {"which": which}))
+        elif which == "several-internal-basins":
+            # one file, three internal definitions sharing the group of
+            # stored rows: different maps, different row counts, and one
+            # definition that lists fewer features than the group holds
+            f3 = d / "a" / "int3.rtdc"
+            rows1 = np.array([7.5, 8.5, 9.5])
+            rows2 = np.array([11.0, 12.0, 13.0, 14.0, 15.0, 16.0])
+            rows3 = np.array([21.0, 22.0])
+            m1 = np.array([0, 0, 1, 1, 2, 2], dtype=np.uint64)
+            m2 = np.array([5, 3, 1, 0, 2, 4], dtype=np.uint64)
+            m3 = np.array([1, 1, 0, 0, 1, 0], dtype=np.uint64)
+            with RTDCWriter(f3, mode="reset") as hw:
+                hw.store_metadata(gen.complete_meta(6, fl=False))
+                hw.store_feature("deform", np.linspace(0.01, 0.06, 6))
+                hw.store_basin("i1", "internal", "h5dataset",
+                               ["basin_events"], basin_feats=["userdef1"],
+                               basin_map=m1,
+                               internal_data={"userdef1": rows1})
+                hw.store_basin("i2", "internal", "h5dataset",
+                               ["basin_events"], basin_feats=["userdef2"],
+                               basin_map=m2,
+                               internal_data={"userdef2": rows2})
+                hw.store_basin("i3", "internal", "h5dataset",
+                               ["basin_events"], basin_feats=["userdef3"],
+                               basin_map=m3,
+                               internal_data={"userdef3": rows3})
+            expect = {"userdef1": rows1[m1.astype(int)],
+                      "userdef2": rows2[m2.astype(int)],
+                      "userdef3": rows3[m3.astype(int)]}
+            with dclab.new_dataset(f3) as ds:
+                for feat, exp_arr in expect.items():
+                    for pat in access_patterns(6):
+                        try:
+                            ok = feat in ds and gen.arrays_equal(
+                                _apply(ds[feat], pat),
+                                _expected(exp_arr, pat))
+                            detail = ""
+                        except BaseException as e:
+                            ok = False
+                            detail = f"{type(e).__name__}: {e}"
+                        if not ok:
+                            out.append(violation(
+                                FB + ":InternalH5DatasetBasin", "wrong-data",
+                                case, f"{feat}[{pat}] in a file with three "
+                                f"internal basins {detail}",
+                                {"which": which, "feat": feat}))
+                            break
         elif which == "origin-removed":
             origin.unlink()
             with dclab.new_dataset(ref) as ds:
@@ -452,7 +499,7 @@ def run(ctx):
                                 for bt in ("file", "internal")])
     res3 = par.pmap(_special_case, [(w, ctx.seed, scratch) for w in (
         "moved-together", "origin-removed", "stored-wins",
-        "mapped-chunk-cross", "similar-maps")])
+        "mapped-chunk-cross", "similar-maps", "several-internal-basins")])
     viols = []
     nfiles = 0
     for n, vs in res + res2 + res3:
